@@ -91,5 +91,16 @@ Definition prop (k : case) : bool :=
                                             else Qeq_bool q (Z.of_nat (count (snd t) (plain_targets m)) # Pos.of_nat (List.length (plain_targets m)))
                            | None => false end
          | None => false end) (m_to m)) lines
+  | CPrefix ref ao an (Some (key, io, nm)) =>
+      (* an accepted reference: the order it ends up with is the explicit one if given, else the one its prefix means;
+         a prefix next to an explicit order must mean the same order (a contradiction is never accepted) *)
+      let ps := fst (split_prefix (s2l ref)) in
+      match ao with
+      | Some i => match order_of_iorder i with
+                  | Some o => iorder_matches o io && match ps with [] => true | _ => order_eqb o (order_of_prefix ps) end
+                  | None => false
+                  end
+      | None => iorder_matches (order_of_prefix ps) io
+      end
   | _ => true
   end.
